@@ -706,3 +706,43 @@ def rule_uncaught_keeps_name(ctx, rep, rid: str) -> None:
                 rep.bad(rid, key, f"{thr.qual} raises JSError for an uncaught error object without its {'name' if not has_name else 'message'}: `throw new RangeError('x')` reaches Python as \"Error: x\"", f"{thr.module.rel}:{n.lineno}")
     if n_sites == 0:
         raise AnalysisError("the uncaught-object branch of VM._throw was not found")
+
+
+# ---- the call stack is not truncated behind a travelling exception ----------------------------------------
+def rule_call_stack_not_cut_in_cleanup(ctx, rep, rid: str) -> None:
+    """While a script exception travels from a callback to a handler below the native that ran it, the frames it
+    came from stay on the call stack until `_throw` finds the handler and unwinds to it: the re-delivered throw reads
+    its source location from the top frame, and the unwinding itself decides how many frames go.  Cleanup code
+    (`finally` blocks, exception handlers) of the interpreter therefore never pops or truncates the call stack."""
+    rep.rule(rid, "frames are pushed by the call routines and removed only by the return handlers, the end-of-function path of the run loops and the unwinding in _throw: no `finally` block or exception handler of the interpreter pops or truncates the call stack", floor=4)
+    vmcls = ctx.facts.vm_dispatcher()[0].cls
+    n = 0
+    for m in vmcls.all_methods:
+        if isinstance(m.node, ast.Lambda):
+            continue
+        for x in m.own_nodes():
+            mut = None
+            if isinstance(x, ast.Call) and isinstance(x.func, ast.Attribute) and norm(x.func.value) == "self.call_stack" and x.func.attr in ("pop", "clear", "append", "insert", "extend", "remove"):
+                mut = x.func.attr
+            if isinstance(x, ast.Delete) and any("self.call_stack" in norm(t) for t in x.targets):
+                mut = "del"
+            if isinstance(x, ast.Assign) and any(norm(t).startswith("self.call_stack") for t in x.targets) and m.name != "__init__":
+                mut = "assign"
+            if mut is None:
+                continue
+            n += 1
+            key = f"{m.qual}:call_stack.{mut}@{short(x, 30)}"
+            where = None
+            child, p = x, getattr(x, "_parent", None)
+            while p is not None and p is not m.node:
+                if isinstance(p, ast.Try) and any(child is s_ for s_ in p.finalbody):
+                    where = "finally block"
+                if isinstance(p, ast.ExceptHandler):
+                    where = "exception handler"
+                child, p = p, getattr(p, "_parent", None)
+            if where and mut != "append":
+                rep.bad(rid, key, f"{m.qual} removes frames from the call stack in a {where} ({short(x, 50)}): when a script exception is on its way to a handler below this point, the frames it came from are gone before _throw re-delivers it, so the error's line/column are taken from the wrong frame (and the unwinding no longer decides what is removed)", f"{m.module.rel}:{x.lineno}")
+            else:
+                rep.ok(rid, key)
+    if n < 4:
+        raise AnalysisError(f"only {n} call-stack mutations found")
